@@ -74,8 +74,11 @@ def vector_items(o):
     """the int sequence a repository vector object iterates over (ArrayBase.__len__/__getitem__ read _items)"""
     from cryptoparser.common.base import ArrayBase
     if isinstance(o, SObj) and issubclass(o.cls, ArrayBase) and isinstance(o.f.get('_items'), (SSeq, list)):
+        items = o.f['_items']
+        if isinstance(items, list) and not all(ops.is_intlike(x) for x in items):
+            return None
         used('iterating an ArrayBase object yields the elements of its _items in order (its __len__/__getitem__)')
-        return ops.as_seq(o.f['_items'])
+        return ops.as_seq(items)
     return None
 
 
